@@ -130,4 +130,42 @@ def reattachObs (l : Limiter) (gens : List SrcGen) (tgt : List ReadEv) : Reattac
     sent := (sourceLoop l gens [] {}).1.counter,
     received := (expectedPerSource (pausePoints l gens [] {}) tgt gens.length).flatten.length }
 
+/-! ### A tunnel whose target end is attached on another node
+
+Two relay hops in a row (source node: `CrossNodeListener.runBridgeForward`; target node:
+`runCrossNodeDataForwardDedicated`), each a pair of `io.Copy` loops = the copy loop without a limiter.  Hop 2
+reads what hop 1 delivered, re-segmented arbitrarily by the cross-node TCP connection (`cut`), and sees the end of
+the stream when hop 1 has finished (hop 1 half-closes the connection when its copy returns). -/
+
+/-- The reads a relay sees from an end that writes `chunks`, never fails, and then half-closes. -/
+def writesAsReads (chunks : List Bytes) : List ReadEv := chunks.map (fun d => ⟨d, none, false, 0⟩)
+
+/-- One direction across the two hops: final state and stop reason of hop 2, and whether hop 1 reached EOF. -/
+def relay2 (rs : List ReadEv) (ws1 : List WriteEv) (cut : Bytes → List Bytes) (ws2 : List WriteEv) :
+    St × Stop × Stop :=
+  ((copy none (writesAsReads (cut (copy none rs ws1 {}).1.delivered)) ws2 {}).1,
+   (copy none (writesAsReads (cut (copy none rs ws1 {}).1.delivered)) ws2 {}).2.1,
+   (copy none rs ws1 {}).2.1)
+
+structure XnodeObs where
+  toTarget : Bytes        -- bytes the target end received
+  toSource : Bytes
+  tgtEof : Bool           -- the target end then observed a clean end of stream
+  srcEof : Bool
+deriving DecidableEq, Repr
+
+/-- The property on a cross-node run in which neither end closes before it has written everything
+(`down` = the source end's writes, `up` = the target end's): what an end received is a prefix of what the
+other sent — and is all of it — and each end then observes the other's end of stream. -/
+def holdsXnode (down up : List Bytes) (o : XnodeObs) : Bool :=
+  o.toTarget.isPrefixOf down.flatten && o.toSource.isPrefixOf up.flatten &&
+  o.toTarget == down.flatten && o.toSource == up.flatten && o.tgtEof && o.srcEof
+
+/-- The model's observation: both directions through both hops, every endpoint accepting all writes. -/
+def xnodeObs (down up : List Bytes) (cutD cutU : Bytes → List Bytes) : XnodeObs :=
+  { toTarget := (relay2 (writesAsReads down) [] cutD []).1.delivered,
+    toSource := (relay2 (writesAsReads up) [] cutU []).1.delivered,
+    tgtEof := (relay2 (writesAsReads down) [] cutD []).2.1 == .eof && (relay2 (writesAsReads down) [] cutD []).2.2 == .eof,
+    srcEof := (relay2 (writesAsReads up) [] cutU []).2.1 == .eof && (relay2 (writesAsReads up) [] cutU []).2.2 == .eof }
+
 end Tunnox.C02
